@@ -29,16 +29,6 @@ func parseTimeZoneToNas(timezone string) int {
 			time += i * 4
 		}
 	}
-	if timezone[len(timezone)-2:] == "+1" || timezone[len(timezone)-2:] == "+2" {
-		idx := strings.LastIndex(timezone, "+")
-		if idx != -1 {
-			if timezone[0] == '-' {
-				time -= (int(timezone[idx+1]) - 0x30) * 4
-			} else {
-				time += (int(timezone[idx+1]) - 0x30) * 4
-			}
-		}
-	}
 
 	// Parse minute
 	switch timezone[4:6] {
@@ -52,11 +42,27 @@ func parseTimeZoneToNas(timezone string) int {
 		time += 0
 	}
 
+	// Apply the sign, then the daylight saving time adjustment: the adjustment can move a
+	// small negative zone across zero (e.g. "-00:30+1" is 30 minutes ahead of UTC)
+	if timezone[0] == '-' {
+		time = -time
+	}
+	if timezone[len(timezone)-2:] == "+1" || timezone[len(timezone)-2:] == "+2" {
+		idx := strings.LastIndex(timezone, "+")
+		if idx != -1 {
+			time += (int(timezone[idx+1]) - 0x30) * 4
+		}
+	}
+	negative := time < 0
+	if negative {
+		time = -time
+	}
+
 	// Convert decimal to binary-coded decimal
 	time = toBinaryCodedDecimal(time)
 
 	// Add signed number
-	if timezone[0] == '-' {
+	if negative {
 		time |= 0x80
 	}
 
